@@ -24,7 +24,7 @@ for pid in ids:
         engine="lean4-proof+correspondence",
         level_claimed=dict(category="proof", text=m["text"], design_ref=m.get("design_ref", "DESIGN.md section 8")),
         level_note=m["note"],
-        technique=m.get("technique", "Lean 4 theorems about a hand-written model; model tied to /repo by differential correspondence check"),
+        technique=m.get("technique", "Lean 4 theorems about a hand-written model; model tied to /repo by a differential correspondence check and by kernel-checked equalities between the regenerated and the reviewed form of the functions it was transcribed from"),
     ))
 na = [dict(property_id=p, reason=NOT_APPLICABLE.get(p, "check not built yet in this round; see DESIGN.md")) for p in ids if p not in [c["property_id"] for c in checks]]
 man = dict(
